@@ -3,6 +3,7 @@ package main
 
 import (
 	"fmt"
+	"os"
 	"math/big"
 	"go/constant"
 	"go/token"
@@ -12,6 +13,8 @@ import (
 
 	"golang.org/x/tools/go/ssa"
 )
+
+var termProfile map[string]int
 
 type Obligation struct {
 	Label   string
@@ -66,6 +69,7 @@ type loopInfo struct {
 }
 
 type Config struct {
+	AssumeUnwind map[string]int // function name -> loop bound whose excess is assumed away (stated cut)
 	LoopBound int
 	RecBound  int
 	SliceCap  int
@@ -297,6 +301,12 @@ func (ex *Exec) execLoop(fr *Frame, L *Loop) {
 			delete(fr.incoming, L.header)
 			return
 		}
+		if ab, ok := ex.cfg.AssumeUnwind[fr.fn.Name()]; ok && iter >= ab {
+			ex.assume(Not(g))
+			ex.notes = append(ex.notes, fmt.Sprintf("CUT: loop in %s assumed to exit within %d iterations", fr.fn.Name(), ab))
+			delete(fr.incoming, L.header)
+			return
+		}
 		if iter >= ex.cfg.LoopBound {
 			if ex.trace {
 				fmt.Printf("UNWIND %s header=%d edges=%d g=%s\n", fr.fn, L.header.Index, len(fr.incoming[L.header]), g.Pretty(6))
@@ -377,7 +387,24 @@ func (ex *Exec) execBlock(fr *Frame, b *ssa.BasicBlock) {
 		fr.set(phi, phiVals[i])
 	}
 	for _, ins := range b.Instrs[len(phis):] {
+		t0 := len(TS.all)
 		ex.step(fr, ins)
+		if termProfile != nil && len(TS.all)-t0 > 2000 {
+			isInlined := false
+			if c, ok := ins.(*ssa.Call); ok {
+				if f, ok := c.Call.Value.(*ssa.Function); ok && ex.lookupModel(f) == nil {
+					isInlined = true
+				}
+				if _, ok := c.Call.Value.(*ssa.Function); !ok && !c.Call.IsInvoke() {
+					if _, isB := c.Call.Value.(*ssa.Builtin); !isB {
+						isInlined = true
+					}
+				}
+			}
+			if !isInlined {
+				fmt.Fprintf(os.Stderr, "PROFILE-INS %d terms: %s in %s\n", len(TS.all)-t0, ins, fr.fn.Name())
+			}
+		}
 		if fr.guard.IsFalse() {
 			return
 		}
@@ -423,8 +450,12 @@ func (ex *Exec) callFunction(fn *ssa.Function, args []Value, bindings []Value, g
 	if ex.trace {
 		fmt.Printf("%s> %s\n", strings.Repeat(" ", len(ex.stack)), fn)
 	}
+	t0 := len(TS.all)
 	ex.execRegion(fr, nil)
 	ex.stack = ex.stack[:len(ex.stack)-1]
+	if termProfile != nil {
+		termProfile[fn.Name()] += len(TS.all) - t0 // inclusive of callees
+	}
 	return ex.mergeRets(fn.Signature, fr.rets)
 }
 
@@ -711,27 +742,36 @@ func (ex *Exec) mapUpdate(fr *Frame, m RefV, key, val Value, pos token.Pos) {
 
 // impliesNot: g syntactically implies not t (a conjunct of g is not(t) or not(or(.. t ..))).
 func impliesNot(g, t *Term) bool {
-	conj := []*Term{g}
-	if g.op == "and" {
-		conj = g.args
-	}
-	for _, x := range conj {
-		if x.op != "not" {
-			continue
+	seen := 0
+	var walk func(x *Term) bool
+	walk = func(x *Term) bool {
+		seen++
+		if seen > 400 {
+			return false
 		}
-		y := x.args[0]
-		if y == t {
-			return true
-		}
-		if y.op == "or" {
-			for _, z := range y.args {
-				if z == t {
+		switch x.op {
+		case "and":
+			for _, y := range x.args {
+				if walk(y) {
 					return true
 				}
 			}
+		case "not":
+			y := x.args[0]
+			if y == t {
+				return true
+			}
+			if y.op == "or" {
+				for _, z := range y.args {
+					if z == t {
+						return true
+					}
+				}
+			}
 		}
+		return false
 	}
-	return false
+	return walk(g)
 }
 
 // recycleMap: the lookup-or-create idiom `if m[k] == nil { m[k] = map[..]..{} }` executed in a
@@ -757,7 +797,7 @@ func (ex *Exec) recycleMap(mapCond, g *Term, e *MapEntry, val Value) Value {
 		if !ok || om.M == nm.M || om.M.typ != nm.M.typ {
 			continue
 		}
-		t := And(mapCond, e.Live, oa.C)
+		t := And(And(mapCond, e.Live, True), oa.C) // same construction as mapLookup
 		if !impliesNot(g, t) {
 			if ex.trace {
 				fmt.Printf("RECYCLE-NO key=%v t=%s\n   g=%s\n", e.Key, t.Pretty(3), g.Pretty(3))
